@@ -87,8 +87,23 @@ pub enum Via {
     OneF64,
     /// 1u8 / &x
     OneU8Ref,
+    /// &1u8 / &x   (both operands by reference)
+    RefOneU8Ref,
+    /// &1i64 / x
+    RefOneI64,
+    /// &1.0f64 / &x
+    RefOneF64Ref,
+    /// 1i64 / &x
+    OneI64Ref,
+    /// &1u128 / &x
+    RefOneU128Ref,
 }
-const VIAS_DEFAULT: [Via; 14] = [
+const VIAS_DEFAULT: [Via; 19] = [
+    Via::RefOneU8Ref,
+    Via::RefOneI64,
+    Via::RefOneF64Ref,
+    Via::OneI64Ref,
+    Via::RefOneU128Ref,
     Via::Default,
     Via::OneU8,
     Via::OneU16,
@@ -162,6 +177,11 @@ fn call_inverse(x: &BigDecimal, t: &Trace) -> BigDecimal {
         Via::OneF32 => 1.0f32 / x.clone(),
         Via::OneF64 => 1.0f64 / x.clone(),
         Via::OneU8Ref => 1u8 / x,
+        Via::RefOneU8Ref => &1u8 / x,
+        Via::RefOneI64 => &1i64 / x.clone(),
+        Via::RefOneF64Ref => &1.0f64 / x,
+        Via::OneI64Ref => 1i64 / x,
+        Via::RefOneU128Ref => &1u128 / x,
     }
 }
 
@@ -451,7 +471,9 @@ impl Property for C12 {
             let pk = (run / (61 * 31)) % 4;
             let mode = MODES[((run / (61 * 31 * 4)) % 7) as usize];
             let int = pow2(i) * pow5(j);
-            let x = Dec::new(rng.chance(1, 2), &int.to_str_radix(10), rng.range(-30, 30));
+            // half of the cells carry part of the power of ten inside the coefficient (5^23 * 10^9 written out)
+            let pad = if rng.chance(1, 2) { rng.below(41) as usize } else { 0 };
+            let x = Dec::new(rng.chance(1, 2), &format!("{}{}", int.to_str_radix(10), "0".repeat(pad)), rng.range(-30, 30));
             let nd = exact_reciprocal(&x.to_ref()).map(|(_, nd)| nd).unwrap_or(1);
             let prec = (nd as i64 - 1 + pk as i64).clamp(1, 150) as u64;
             return Trace { x, prec, mode, via: Via::Ctx, env: EnvSel::All, transport: (run % 7) as u8 };
@@ -508,8 +530,10 @@ impl Property for C12 {
         let via = if rng.chance(1, 5) { *rng.pick(&VIAS_DEFAULT) } else { Via::Ctx };
         if via != Via::Ctx && rng.chance(1, 2) {
             // the operator forms have shortcuts of their own (one, two, powers of ten ...): aim at them
-            let ints: [&str; 16] = ["1", "-1", "2", "-2", "10", "-10", "100", "-100", "5", "-5", "4", "-8", "25", "3", "-7", "1000"];
-            let x = Dec { int: rng.pick(&ints).to_string(), scale: rng.range(-6, 6) };
+            let ints: [&str; 24] = ["1", "-1", "2", "-2", "10", "-10", "100", "-100", "5", "-5", "4", "-8", "25", "3", "-7", "1000", "15", "125", "-16", "11", "19", "1999", "1000000000000000001", "-12"];
+            let pick: &str = *rng.pick(&ints);
+            // small scales put many of these strictly between the integers (1.5, 1.25, -1.6, 1.999, ...)
+            let x = Dec { int: pick.to_string(), scale: rng.range(-6, 6).max(if pick.len() > 6 { 18 } else { -6 }) };
             return Trace { x, prec: DEFAULT_PREC, mode: Mode::HalfEven, via, env: EnvSel::All, transport: (run % 7) as u8 };
         }
         if via == Via::Ctx && rng.chance(1, 12) {
